@@ -27,6 +27,7 @@ const (
 	kClose            // </stream:stream>: Serve returns nil
 	kStreamErr        // <stream:error>: Serve returns the stream.Error
 	kBad              // any other stream-level construct: Serve returns a non-nil error
+	kElemStreamErr    // an element with a <stream:error> nested inside: handler invoked, Serve returns that stream error
 	kElemTrunc        // an element cut off by the end of input (only as the last item): handler invoked; nil or error
 )
 
@@ -62,15 +63,15 @@ var items = []item{
 	{"nested2-comment", `<message><body>a<!-- c --></body></message>`, kElemBad},
 	{"nested1-procinst", `<message><?pi x?></message>`, kElemBad},
 	{"nested2-directive", `<message><a><b/><!DOCTYPE x></a></message>`, kElemBad},
-	{"nested1-stream-error", `<message>` + se + `</message>`, kElemBad},
-	{"nested2-stream-error", `<message><a>` + se + `</a></message>`, kElemBad},
+	{"nested1-stream-error", `<message>` + se + `</message>`, kElemStreamErr},
+	{"nested2-stream-error", `<message><a>` + se + `</a></message>`, kElemStreamErr},
 	{"nested1-restart", `<message><stream:stream/></message>`, kElemBad},
 	{"nested2-stream-other", `<message><a><stream:features/></a></message>`, kElemBad},
 	// requests nobody answers (the session adds its own error reply) whose
 	// unread part holds a stream-level construct
 	{"iq-get-nested-comment", `<iq type='get' id='q1' from='juliet@example.com/r'><q xmlns='urn:q'/><!-- c --><x xmlns='urn:x'/></iq>`, kElemBad},
 	{"iq-get-nested2-comment", `<iq type='get' id='q3' from='juliet@example.com/r'><q xmlns='urn:q'><!-- c --></q><x xmlns='urn:x'/></iq>`, kElemBad},
-	{"iq-set-nested-stream-error", `<iq type='set' id='q2' from='juliet@example.com/r'><q xmlns='urn:q'/>` + se + `<x xmlns='urn:x'/></iq>`, kElemBad},
+	{"iq-set-nested-stream-error", `<iq type='set' id='q2' from='juliet@example.com/r'><q xmlns='urn:q'/>` + se + `<x xmlns='urn:x'/></iq>`, kElemStreamErr},
 }
 
 type invocation struct {
@@ -217,7 +218,7 @@ func body(maxItems int) nd.Body {
 			stop := false
 			switch it.kind {
 			case kKeepAlive:
-			case kElem, kElemBad, kElemTrunc:
+			case kElem, kElemBad, kElemStreamErr, kElemTrunc:
 				st, rest, _ := refTokens(ns, it.text)
 				if strings.HasPrefix(st, "<{"+ns+"}") { // stanza in the stream's own namespace (or any element of it)
 					if l := st[len("<{"+ns+"}"):]; strings.HasPrefix(l, "message") || strings.HasPrefix(l, "iq") || strings.HasPrefix(l, "presence") {
@@ -227,6 +228,10 @@ func body(maxItems int) nd.Body {
 				want = append(want, invocation{start: st, toks: rest})
 				if it.kind == kElemBad {
 					wantEnd = "error"
+					stop = true
+				}
+				if it.kind == kElemStreamErr {
+					wantEnd = "stream-error"
 					stop = true
 				}
 				if prog == 7 {
